@@ -90,6 +90,9 @@ def mypy_expression_to_sds_type(expr: mp_nodes.Expression) -> sds_types.Abstract
     if isinstance(expr, mp_nodes.NameExpr):
         if expr.name in {"False", "True"}:
             return sds_types.NamedType(name="bool", qname="builtins.bool")
+        elif isinstance(expr.node, mp_nodes.Var) and expr.name != "None":
+            # A variable is a value, not a type, its name can't be used as a type
+            raise TypeError("Unexpected expression type.")
         else:
             return sds_types.NamedType(name=expr.name, qname=expr.fullname)
     elif isinstance(expr, mp_nodes.IntExpr):
@@ -99,7 +102,14 @@ def mypy_expression_to_sds_type(expr: mp_nodes.Expression) -> sds_types.Abstract
     elif isinstance(expr, mp_nodes.StrExpr):
         return sds_types.NamedType(name="str", qname="builtins.str")
     elif isinstance(expr, mp_nodes.TupleExpr):
-        return sds_types.TupleType(types=[mypy_expression_to_sds_type(item) for item in expr.items])
+        types: list[sds_types.AbstractType] = []
+        for item in expr.items:
+            try:
+                types.append(mypy_expression_to_sds_type(item))
+            except TypeError:
+                # The type of this tuple element can't be inferred, but the other elements are still of use
+                types.append(sds_types.UnknownType())
+        return sds_types.TupleType(types=types)
     elif isinstance(expr, mp_nodes.UnaryExpr):
         return mypy_expression_to_sds_type(expr.expr)
 
